@@ -247,12 +247,24 @@ def gen_response_stream(rng: random.Random) -> Tuple[List[Parts], dict]:
 # ------------------------------------------------------------------ smuggling mutation classes
 Mut = Tuple[str, bytes]
 CTLS = [b"\x00", b"\x01", b"\x0b", b"\x0c", b"\x1f", b"\x7f", b"\r", b"\n", b"\t"]
-CL_BAD = [b"+5", b"-5", b"0x5", b"5,5", b"5, 5", b"5 5", b"5.0", b"5e0", b"", b"1_0", b"\xd9\xa5", b"5;", b"0b1",
+# byte sequences that str.strip()/str.split() treat as white space after decoding (UTF-8 NBSP, NEL, LINE SEPARATOR,
+# IDEOGRAPHIC SPACE, EM SPACE), their latin-1 single bytes, and the ASCII separators FS..US / VT / FF
+UWS = [b"\xc2\xa0", b"\xc2\x85", b"\xe2\x80\xa8", b"\xe3\x80\x80", b"\xe2\x80\x83", b"\xa0", b"\x85", b"\x1c", b"\x1f", b"\x0b", b"\x0c"]
+
+
+def _uws_variants(token: bytes) -> List[bytes]:
+    out = []
+    for u in UWS:
+        out += [u + token, token + u, u + token + u]
+    return out
+
+
+CL_BAD = _uws_variants(b"5") + [b"+5", b"-5", b"0x5", b"5,5", b"5, 5", b"5 5", b"5.0", b"5e0", b"", b"1_0", b"\xd9\xa5", b"5;", b"0b1",
           b"5\x0b", b"five", b" 5", b"5\t", b"00000000000000000005", b"99999999999999999999"]
-TE_VALUES = [b"chunked, chunked", b"gzip, chunked", b"chunked, gzip", b"xchunked", b"chunkedx", b"chunked;q=1",
+TE_VALUES = _uws_variants(b"chunked") + [b"gzip," + u + b"chunked" for u in UWS[:5]] + [b"chunked" + u + b", chunked" for u in UWS[:2]] + [b"chunked, chunked", b"gzip, chunked", b"chunked, gzip", b"xchunked", b"chunkedx", b"chunked;q=1",
              b"identity", b"chunked,", b",chunked", b", chunked", b"\x0bchunked", b"chunked\x00", b"chunk ed", b"",
              b"gzip", b"identity, chunked", b"chunked , chunked", b"CHUNKED", b"\"chunked\"", b"chunked\t"]
-CSIZE_BAD = [b"+3", b"0x3", b"3 ", b" 3", b"3\t", b"-3", b"", b"g", b"3,3", b"3.", b"0000000000000000000003",
+CSIZE_BAD = _uws_variants(b"3")[:15] + [b"+3", b"0x3", b"3 ", b" 3", b"3\t", b"-3", b"", b"g", b"3,3", b"3.", b"0000000000000000000003",
              b"fffffffffffffffff", b"\xef\xbc\x93", b"3\x00", b"3\r"]
 CEXT_VARIANTS = [b";", b";;", b"; a", b";a=", b";=b", b";a=b\x00", b";a=\x01", b";a=b\r", b';a="x', b";a=b c",
                  b" ;a=b", b"\t;a", b";a\x7f"]
@@ -353,6 +365,14 @@ def mutate_class(parts: Sequence[Part], cls: str, rng: random.Random, per_class:
                     if where == "mid" and len(b) < 2:
                         continue
                     emit(f"{P[i][0]}-{c!r}-{where}@{i}", _splice(P, i, [(P[i][0], nb)]))
+    elif cls == "unicode-ws":     # bytes that decode to Unicode white space, around every token-like part
+        for i in idx("method", "version", "hname", "hvalue", "csize", "tname", "tvalue", "vers", "status"):
+            b = P[i][1]
+            for u in UWS[:7]:
+                emit(f"{P[i][0]}-{u!r}-lead@{i}", _splice(P, i, [(P[i][0], u + b)]))
+                emit(f"{P[i][0]}-{u!r}-trail@{i}", _splice(P, i, [(P[i][0], b + u)]))
+                if b"," in b:
+                    emit(f"{P[i][0]}-{u!r}-comma@{i}", _splice(P, i, [(P[i][0], b.replace(b",", b"," + u, 1))]))
     elif cls == "name-ws":        # whitespace around field names
         for i in idx("hname", "tname"):
             n = P[i][1]
@@ -468,10 +488,13 @@ def mutate_class(parts: Sequence[Part], cls: str, rng: random.Random, per_class:
 
 
 REQUEST_CLASSES = ["cl-te", "cl-repeat", "cl-nondecimal", "te-not-chunked", "te-http10", "bare-lf", "bare-cr", "fold",
-                   "ctl", "name-ws", "chunk-size", "chunk-ext", "chunk-data-end", "trailer", "host", "request-line",
+                   "ctl", "unicode-ws", "name-ws", "chunk-size", "chunk-ext", "chunk-data-end", "trailer", "host", "request-line",
                    "truncate"]
-RESPONSE_CLASSES = ["cl-te", "cl-repeat", "cl-nondecimal", "te-not-chunked", "bare-cr", "fold", "ctl", "name-ws",
+RESPONSE_CLASSES = ["cl-te", "cl-repeat", "cl-nondecimal", "te-not-chunked", "bare-cr", "fold", "ctl", "unicode-ws", "name-ws",
                     "chunk-size", "chunk-ext", "chunk-data-end", "trailer", "status-line", "lax-forms", "truncate"]
+
+
+CLASS_WEIGHT = {"te-not-chunked": 5, "cl-nondecimal": 4, "cl-te": 2, "cl-repeat": 2, "chunk-size": 3, "unicode-ws": 2}
 
 
 def random_byte_mutations(data: bytes, rng: random.Random, n: int) -> List[Mut]:
@@ -524,7 +547,11 @@ HOSTILE_TARGETS = [b"http://[::1", b"http://[::1]x/", b"http://]/", b"http://[/"
                    b"[::1", b"a:b", b"a:99999999999", b":", b"::", b"@", b"[", b"]", b"http://h/[", b"http://h/?[", b"/[", b"\\", b"/\\",
                    b"http://xn--/", b"http://a..b/", b"http://.a/", b"http://a./", b"ht!tp://h/", b"1http://h/", b"http://h /",
                    b"http://h:80a/", b"http://h:0x50/", b"http://[::ffff:1.2.3.4]/", b"http://[v1.x]/", b"http://[::1%25eth0]/",
-                   b"http://h#f", b"http://h?q", b"http:///", b"http://?", b"http://#", b"s://h", b"s:/h", b"s:h", b"s:", b":h"]
+                   b"http://h#f", b"http://h?q", b"http:///", b"http://?", b"http://#", b"s://h", b"s:/h", b"s:h", b"s:", b":h",
+                   # bytes that are not valid UTF-8, alone and inside otherwise hostile targets
+                   b"\xff", b"\xff\xfe", b"\xe9", b"\xc3", b"foo\xc3", b"*\xff", b"a\xc3:b", b"a:b\xff", b"http://a:b/\xe9",
+                   b"http://[::1\xff", b"http://\xff:x/", b"http://:80/\xe9", b"/\x00\xff", b"/\xe9\x00", b"\xff/", b"http:/\xe9",
+                   b"h\xe9:80", b"\xe9:\xe9", b"http://a\xff:b\xff/"]
 
 
 # ------------------------------------------------------------------ segmentations
@@ -676,3 +703,137 @@ def limit_family(position: str, L: int, F: int, H: int) -> List[Tuple[str, bytes
 
 LIMIT_POSITIONS = ["request-line", "status-line", "field", "field-first", "field-value-ows", "field-name", "fold",
                    "chunk-size", "chunk-ext", "trailer", "header-count", "trailer-count", "unterminated"]
+
+
+# ------------------------------------------------------------------ pipelines with upgrade offers
+def gen_upgrade_pipeline(rng: random.Random) -> List[Parts]:
+    """3..6 requests on one connection of which one or more offer a protocol upgrade (Connection: upgrade +
+    Upgrade: ...), each followed by ordinary pipelined requests.  What an offer means for the rest of the stream
+    depends on whether the server accepts it; the reference has a reading for either case."""
+    k = rng.choice([3, 3, 4, 4, 5, 6])
+    offers = set(rng.sample(range(k - 1), rng.choice([1, 2, 2, 3][: max(1, k - 2)]) if k > 2 else 1))
+    msgs: List[Parts] = []
+    for i in range(k):
+        if i in offers:
+            up = rng.choice([b"websocket", b"websocket", b"WebSocket", b"tcp", b"h2c", b"websocket, foo"])
+            hs = [(b"Host", b"example.com"), (b"Connection", rng.choice([b"upgrade", b"Upgrade", b"keep-alive, upgrade"])),
+                  (b"Upgrade", up)]
+            rng.shuffle(hs)
+            body = None
+            method = rng.choice([b"GET", b"GET", b"POST"])
+            if method == b"POST" and rng.random() < 0.6:
+                body = _rand_body(rng, rng.choice([1, 4, 12]))
+                hs.append((b"Content-Length", b"%d" % len(body)))
+            msgs.append(request_parts(method, rng.choice([b"/ws", b"/chat?x=1", b"/"]), headers=hs, body=body, rng=rng))
+        else:
+            m = gen_request(rng, last=False, allow_close=False)
+            # keep the followers on the connection: no HTTP/1.0, no close
+            msgs.append(m)
+    return msgs
+
+
+# ------------------------------------------------------------------ coded bodies (auto-decompression)
+def _codecs() -> List[Tuple[str, bytes, Callable[[bytes], bytes]]]:
+    import zlib
+
+    def gz(b: bytes) -> bytes:
+        c = zlib.compressobj(6, zlib.DEFLATED, 16 + zlib.MAX_WBITS)
+        return c.compress(b) + c.flush()
+
+    def raw(b: bytes) -> bytes:
+        c = zlib.compressobj(6, zlib.DEFLATED, -zlib.MAX_WBITS)
+        return c.compress(b) + c.flush()
+
+    out: List[Tuple[str, bytes, Callable[[bytes], bytes]]] = [
+        ("gzip", b"gzip", gz), ("zlib-deflate", b"deflate", zlib.compress), ("raw-deflate", b"deflate", raw)]
+    try:
+        import brotli  # type: ignore[import-not-found]
+        out.append(("br", b"br", brotli.compress))
+    except Exception:  # noqa: BLE001
+        pass
+    try:
+        try:
+            from compression import zstd  # type: ignore[import-not-found]
+        except Exception:  # noqa: BLE001
+            from backports import zstd  # type: ignore[import-not-found,no-redef]
+        out.append(("zstd", b"zstd", zstd.compress))
+    except Exception:  # noqa: BLE001
+        pass
+    return out
+
+
+def gen_coded_stream(rng: random.Random, mode: str) -> Tuple[List[Parts], List[bytes], str]:
+    """1..2 messages whose bodies are content-coded (gzip / zlib deflate / raw deflate / br / zstd), framed by
+    Content-Length or chunked.  Returns (messages, plain bodies in order, label)."""
+    codecs = _codecs()
+    msgs: List[Parts] = []
+    plain: List[bytes] = []
+    labels = []
+    for _i in range(rng.choice([1, 1, 2])):
+        name, token, comp = rng.choice(codecs)
+        n = rng.choice([1, 5, 40, 200, 700])
+        words = [b"alpha ", b"beta ", b"gamma\n", b"\x00\x01", b"0123456789", b"\r\n"]
+        text = b"".join(rng.choice(words) for _ in range(n))[:n]
+        coded = comp(text)
+        hs = [(b"Content-Encoding", rng.choice([token, token.upper() if rng.random() < 0.2 else token]))]
+        chunks = None
+        body = None
+        if rng.random() < 0.6:
+            # chunk the coded bytes; small first chunks put read boundaries right behind the first size line
+            cuts = sorted(set([rng.choice([1, 2, 3, 10])] + [rng.randrange(1, len(coded)) for _ in range(rng.choice([0, 1, 3]))])) if len(coded) > 1 else []
+            pieces = [coded[a:b] for a, b in zip([0] + cuts, cuts + [len(coded)]) if b > a]
+            chunks = pieces
+            hs.append((b"Transfer-Encoding", b"chunked"))
+        else:
+            body = coded
+            hs.append((b"Content-Length", b"%d" % len(coded)))
+        rng.shuffle(hs)
+        if mode == "request":
+            msgs.append(request_parts(b"POST", b"/upload", headers=[(b"Host", b"a")] + hs, body=body, chunks=chunks))
+        else:
+            msgs.append(response_parts(200, b"OK", headers=hs, body=body, chunks=chunks))
+        plain.append(text)
+        labels.append(f"{name}/{'chunked' if chunks is not None else 'cl'}/{n}")
+    return msgs, plain, "coded " + "+".join(labels)
+
+
+# ------------------------------------------------------------------ more limit / totality families (C10, C03)
+def unterminated_family(L: int, F: int, H: int) -> List[Tuple[str, bytes, List[List[int]], str]]:
+    """Input that never completes what it started: a plausible line followed by a run of one byte value that is
+    not LF (CR, SP, HTAB, NUL, 0xff, 'x'), and header / trailer blocks with more than max_headers well-formed
+    lines but no empty line.  Retained bytes must stay bounded and the stream must be rejected."""
+    out: List[Tuple[str, bytes, List[List[int]], str]] = []
+    host = b"Host: a\r\n"
+    n = 3 * max(L, F) + 10
+    prefixes = [("start", b"GET / HTTP/1.1", L, "request"), ("field", b"GET / HTTP/1.1\r\n" + host + b"X: v", F, "request"),
+                ("status", b"HTTP/1.1 200 OK", L, "response"), ("resp-field", b"HTTP/1.1 200 OK\r\nX: v", F, "response"),
+                ("chunk-size", b"POST / HTTP/1.1\r\n" + host + b"Transfer-Encoding: chunked\r\n\r\n3", L, "request"),
+                ("trailer", b"POST / HTTP/1.1\r\n" + host + b"Transfer-Encoding: chunked\r\n\r\n0\r\nT: v", F, "request")]
+    for name, pre, lim, mode in prefixes:
+        line_start = pre.rfind(b"\n") + 1
+        for bname, bv in (("cr", b"\r"), ("sp", b" "), ("tab", b"\t"), ("nul", b"\x00"), ("hi", b"\xff"), ("x", b"x")):
+            s = pre + bv * n
+            cuts = [[line_start + lim - 1], [line_start + lim + 1], list(range(len(pre), len(s), 7)), list(range(len(pre), len(s), max(2, lim // 3)))]
+            out.append((f"run-{name}-{bname}", s, cuts, mode))
+    for k in (H + 1, H + 3, 2 * H + 1, 3 * H + 5):
+        block = b"".join(b"X%d: v\r\n" % i for i in range(k))
+        s = b"GET / HTTP/1.1\r\n" + host + block
+        out.append((f"open-header-block-{k}", s, [list(range(30, len(s), 9)), list(range(30, len(s), 64))], "request"))
+        r = b"HTTP/1.1 200 OK\r\n" + block
+        out.append((f"resp-open-header-block-{k}", r, [list(range(20, len(r), 9))], "response"))
+        t = b"POST / HTTP/1.1\r\n" + host + b"Transfer-Encoding: chunked\r\n\r\n0\r\n" + block
+        out.append((f"open-trailer-block-{k}", t, [list(range(60, len(t), 9))], "request"))
+    return out
+
+
+def long_number_family() -> List[Tuple[str, bytes, str]]:
+    """Content-Length values and chunk sizes with very many digits (int() refuses > 4300 decimal digits)."""
+    out = []
+    for n in (19, 20, 21, 4299, 4300, 4301, 8000):
+        for name, digits in (("ones", b"1" * n), ("zeros5", b"0" * (n - 1) + b"5"), ("nines", b"9" * n)):
+            out.append((f"cl-{name}-{n}", b"POST / HTTP/1.1\r\nHost: a\r\nContent-Length: " + digits + b"\r\n\r\nhello", "request"))
+            out.append((f"resp-cl-{name}-{n}", b"HTTP/1.1 200 OK\r\nContent-Length: " + digits + b"\r\n\r\nhello", "response"))
+        for name, digits in (("zeros5", b"0" * (n - 1) + b"5"), ("effs", b"f" * n), ("nines", b"9" * n)):
+            out.append((f"chunk-{name}-{n}", b"POST / HTTP/1.1\r\nHost: a\r\nTransfer-Encoding: chunked\r\n\r\n" + digits + b"\r\nhello\r\n0\r\n\r\n", "request"))
+            out.append((f"resp-chunk-{name}-{n}", b"HTTP/1.1 200 OK\r\nTransfer-Encoding: chunked\r\n\r\n" + digits + b"\r\nhello\r\n0\r\n\r\n", "response"))
+    return out
